@@ -4,6 +4,19 @@ VERIF = os.path.dirname(os.path.dirname(os.path.abspath(__file__)))
 ALL = ["C%02d" % i for i in range(1, 21)]
 
 CLAIMS = {
+ "C05": dict(
+    text="MathComp theorems (any size, any field with an involutive conjugation): the Cholesky-reduced dense path returns X = L^-H Y with "
+         "A X = M X diag(e) and X^H M X = I; tallqr M-orthonormalises; Ritz vectors of an M-orthonormal basis are M-orthonormal, their "
+         "residual is orthogonal to the basis, and on the full space they are exact; the svd factors built from the eigenpairs of "
+         "B^H B are orthonormal with B v = s u, B^H u = s v and U diag(s) V^H = B for full k. List theorems: the slice keeps exactly "
+         "the neig extreme values of an ascending list (both modes); davidson returns the visited Ritz pair of least residual and the "
+         "residual exit implies it is below min_eps. The executable model (LAPACK answers on a tape) runs at binary64 / complex "
+         "binary64 against symeig and svd: eigh / cholesky arguments, Rayleigh matrices, exits, iteration counts, returned pairs.",
+    note="Trusted: Coq kernel + vm_compute + PrimFloat; torch.linalg.eigh / cholesky / inverse as oracles whose answers are checked "
+         "against their specifications on every case; convergence of davidson in floating point (oracle over spectra, operator kinds, "
+         "batches). Open findings F26 (svd of rank-deficient operators) and F27 (davidson normalising a noise direction).",
+    technique="Coq/MathComp proof (generalised eigenproblem and svd algebra, slice and best-iterate theorems) + oracle-tape model correspondence",
+    ref="DESIGN.md section 7, C05"),
  "C04": dict(
     text="MathComp theorems: for every tangent of f(y(theta), theta) = 0 the two steps of the backward pass (solve J^T g = -G, pull g "
          "back through theta |-> f(y*, theta)) give <G, dy> = <P^T g, dtheta> (any size, any commutative ring); the gradient is "
